@@ -100,6 +100,11 @@ def gen_cases(seed, tier):
             # the client offers a protocol upgrade that the target declines (it answers normally): buffered and limited as usual
             "offer_upgrade": (not sse) and rnd.random() < 0.2,
         })
+        if rnd.random() < 0.15 and not sse and not abort:
+            # informational responses ahead of the final one: they are passed on and do not fix the status
+            cases[-1]["interim"] = rnd.choice([[103], [100], [100], [102, 103], [100, 103]])
+            cases[-1]["expect_continue"] = 100 in cases[-1]["interim"] and rnd.random() < 0.7
+            cases[-1]["offer_upgrade"] = False
     # torn-down exchanges behind a real front server (spill file must be gone afterwards)
     for k in range(6 if tier == "quick" else 60):
         maxm = rnd.choice([10, 100, 1000])
